@@ -79,19 +79,42 @@ def run(chk, ctx):
     allowed = {"_max_n": {"__init__", "finalize"}, "_n": {"__init__", "finalize", "_iterator"},
                "_r": {"__init__", "_iterator"}}
     names = ["CheckpointSchedule"] + repo.schedule_classes()
+
+    def self_calls(f):
+        return {n.func.attr for n in ast.walk(f) if isinstance(n, ast.Call) and isinstance(n.func, ast.Attribute)
+                and isinstance(n.func.value, ast.Name) and n.func.value.id == "self"}
+
     for cname in names:
         rel, c = repo.find_class(cname)
+        methods = {f.name: f for f in c.body if isinstance(f, ast.FunctionDef)}
+        # private helpers of the generator: reachable from _iterator through self.m() calls and called from nowhere else
+        helpers, todo = set(), ["_iterator"] if "_iterator" in methods else []
+        while todo:
+            m = todo.pop()
+            for callee in self_calls(methods[m]):
+                if callee in methods and callee not in helpers and callee != "_iterator" and callee.startswith("_") \
+                        and not callee.startswith("__"):
+                    helpers.add(callee)
+                    todo.append(callee)
+        for h in list(helpers):
+            callers = {m for m, f in methods.items() if h in self_calls(f)}
+            if not callers <= helpers | {"_iterator"}:
+                helpers.discard(h)
         for f in c.body:
             if not isinstance(f, ast.FunctionDef):
                 continue
             chk.functions.add(f"{rel[:-3]}.{cname}.{f.name}")
             st = attr_stores(f)
+            observer = any(ast.unparse(d) == "property" for d in f.decorator_list) or f.name in ("uses_storage_type", "__iter__")
             for a, ok_in in allowed.items():
                 if a in st:
-                    good = f.name in ok_in and (f.name != "__init__" or cname == "CheckpointSchedule"
-                                                or True)
-                    chk.decide("C08.MAXN", f"{rel[:-3]}.{cname}.{f.name}#store-{a}", True if good else False,
-                               f"{a} written in {f.name}" + ("" if good else " (observer or helper must not move the counters)"),
+                    good = f.name in ok_in or (f.name in helpers and "_iterator" in ok_in)
+                    verdict = True if good else (False if observer else None)
+                    chk.decide("C08.MAXN", f"{rel[:-3]}.{cname}.{f.name}#store-{a}", verdict,
+                               f"{a} written in {f.name}" + (" (a private helper called only from the generator)" if good and f.name in helpers
+                                                              else "" if good else
+                                                              " (an observer must not move the counters)" if observer else
+                                                              " (a method outside the generator, the constructor and finalize)"),
                                rel=rel, node=f, nontrivial=False)
             if "<dynamic>" in st:
                 chk.decide("C08.MAXN", f"{rel[:-3]}.{cname}.{f.name}#setattr", None,
